@@ -378,7 +378,7 @@ def _int_verdict(verdict, text, style):
     lines = M.physical_lines(text) or []
     int_rows = []
     for line in lines:
-        if style["comment"] is not None and line.startswith(style["comment"]):
+        if style["comment"] is not None and line.startswith(M.COMMENT_STARTS.get(style["comment"], style["comment"])):
             continue
         toks = M.split_tokens(line.strip(), style["delim"], -1)
         vals = []
